@@ -594,8 +594,82 @@ def r7_5(F, R):
         R.violation("R7.5", "noexpand_hook_finish", "\\noexpand must take exactly one token from the unexpanded stream", "%s:%d" % (fn.file, fn.line))
 
 
+def r7_7(F, R):
+    from ..cfg import Defs, reachable
+    R.rule("R7.7", "control sequences and active characters are looked up alike: every method of command::map::Map that matches on a CommandRef "
+                   "reaches a container access (GroupingContainer::get/insert/..., or another Map method) in each of the two arms — an arm that "
+                   "answers with a constant makes `\\let`-aliases on active characters invisible to the skip loops (tags) or to execution")
+    CREF = "texlang::token::CommandRef"
+    n = 0
+    for fn in sorted(F.fns.values(), key=lambda f: f.name):
+        nm = strip_generics(fn.name)
+        if not nm.startswith("texlang::command::map::Map::") or "{closure" in nm:
+            continue
+        defs = Defs(fn)
+        for bi, b in enumerate(fn.blocks):
+            t = b["t"]
+            if t["k"] != "switch":
+                continue
+            p = op_place(t["op"])
+            d = defs.single(p["l"]) if p is not None and not p["p"] else None
+            if not (d and d[0] == "st" and d[3]["k"] == "=" and d[3]["rv"]["k"] == "discr"):
+                continue
+            pl = d[3]["rv"]["pl"]
+            ty = fn.local_ty(pl["l"]).lstrip("&").replace("mut ", "").strip()
+            if [e for e in pl["p"] if e != "*"] or not ty.startswith(CREF):
+                continue
+            variants = {v[2]: v[0] for v in F.enums.get(CREF, [])}
+            for val, tgt in t["ts"]:
+                if val not in variants:
+                    continue
+                n += 1
+                inst = "%s/%s" % (nm.split("::")[-1], variants[val])
+                reach = reachable(fn, tgt)
+                acc = [x for x in reach if fn.blocks[x]["t"]["k"] == "call" and (
+                    "groupingmap::GroupingContainer" in (callee_name(fn.blocks[x]["t"]) or "") or strip_generics(callee_name(fn.blocks[x]["t"]) or "").startswith("texlang::command::map::Map::"))]
+                # accesses reachable only through this arm (not shared with the join after the match are fine too)
+                if acc:
+                    R.ok("R7.7", inst, "reaches a container access", fn.loc(t), how="reachability")
+                else:
+                    R.violation("R7.7", inst, "%s answers for CommandRef::%s without looking the command up: aliases defined on %s are ignored" % (
+                        fn.name, variants[val], "active characters" if variants[val] == "ActiveCharacter" else "control sequences"), fn.loc(t))
+    R.floor("R7.7", "CommandRef arms in command::map::Map", n, 4)
+
+
+def r7_8(F, R):
+    R.rule("R7.8", "\\ifnum / \\ifdim compare the operands themselves: in the evaluate methods of the conditional primitives the values handed to the "
+                   "comparison (`cmp`, `<`, `==`, ...) are the parsed operands, with no arithmetic in between (a difference wraps for operands "
+                   "of opposite sign: 2147483647 vs -1). The only arithmetic in a condition is \\ifodd's remainder (R7.4)")
+    ARITH = ("wrapping_sub", "wrapping_add", "checked_sub", "checked_add", "saturating_sub", "saturating_add", "overflowing_sub", "signum", "abs", "sub", "add", "neg", "wrapping_neg")
+    n = 0
+    for fn in sorted(F.fns.values(), key=lambda f: f.name):
+        nm = strip_generics(fn.name)
+        if not (nm.startswith("<texlang_stdlib::conditional::") and nm.endswith("::evaluate")):
+            continue
+        n += 1
+        inst = nm.split("::")[2].split(" ")[0]
+        bad = []
+        for bi, t in fn.calls():
+            cn = strip_generics(callee_name(t) or "")
+            if cn.split("::")[-1] in ARITH and ("core::num::" in cn or "core::ops::arith" in cn):
+                bad.append((cn.split("::")[-1], fn.loc(t)))
+        for b in fn.blocks:
+            for st in b["s"]:
+                if st["k"] == "=" and st["rv"]["k"] == "bin" and st["rv"]["op"].replace("WithOverflow", "") in ("Sub", "Add", "Mul") \
+                        or st["k"] == "=" and st["rv"]["k"] == "un" and st["rv"].get("op") == "Neg":
+                    bad.append((st["rv"].get("op"), fn.loc(st)))
+        if bad:
+            R.violation("R7.8", inst + "/arith", "%s computes with its operands (`%s`) before comparing them: the relation is wrong when the "
+                        "intermediate value wraps or saturates" % (fn.name, bad[0][0]), bad[0][1])
+        else:
+            R.ok("R7.8", inst, "operands compared directly", "%s:%d" % (fn.file, fn.line), how="use-set")
+    R.floor("R7.8", "evaluate methods of conditional primitives", n, 3)
+
+
 def run(F, R, tier):
     r7_1(F, R)
+    r7_7(F, R)
+    r7_8(F, R)
     r7_2(F, R)
     r7_2b(F, R)
     r7_6(F, R)
